@@ -347,7 +347,12 @@ class Checker:
                 total_consumed,
                 percent_matched,
             )
-        self._result = (matched / consumed) * 100 if consumed > 0 else 0
+        if consumed > 0:
+            self._result = (matched / consumed) * 100
+        else:
+            # a payload without a single byte (empty files only) has nothing
+            # that could fail verification
+            self._result = 100 if self.total == 0 else 0
 
 
 class FeedChecker(ProgMixin):
